@@ -186,6 +186,17 @@ UNITS = [
                'stubs = their proved contracts (units Header_nbAnalogs, Header_setNbAnalogs, Header_nbFrames, Header_setNbAnalogByFrame) '
                'restated over the abstract view (sub-frames, channels, samples exact?) so that no multiplier enters the formula',
                'SAMPLES_FIT: channels x sub-frames <= 65535 in every intermediate state (the 16-bit samples word; beyond it see finding C17)']),
+    U('c3d_parameter', 'contracts/c3dparameter.c', 'h_c3d_parameter', ['c3d__parameter/contract_c3d__parameter'],
+      ['C09', 'C10', 'C05', 'C13', 'C18'],
+      replace=['Parameters__groupIdx/contract_cp_Parameters__groupIdx', 'Group__ctor/contract_cp_Group__ctor',
+               'Parameters__group__Group/contract_cp_Parameters__group__Group',
+               'Group__parameter__Parameter/contract_cp_Group__parameter__Parameter',
+               'c3d__updateHeader/contract_cp_c3d__updateHeader'],
+      unwind=4, timeout=600, object_bits=12, level='PB', bound='group list of at most 4096 groups (the format allows 127)',
+      assumes=['Parameters::groupIdx reports the ghost fact "a group of that name exists at index i" (first match: unit '
+               'Parameters_groupIdx); Group::parameter(p) refuses an untyped parameter before any change and otherwise stores it '
+               '(unit Group_parameter); Parameters::group(Group) appends a group that is not there yet (assumed: no unit of its own); '
+               'updateHeader does not throw on a valid object (unit c3d_updateHeader)']),
     U('Parameters_write', WR, 'h_Parameters_write', ['Parameters__write/contract_Parameters__write'],
       ['C01', 'C03', 'C13', 'C14', 'C10'], replace=['Group__write/contract_abs_Group__write'], unwind=5, loops=True, timeout=900,
       pre_unwind={'vf_stream_write.0': 5, 'Parameters__write.0': 3},
